@@ -612,6 +612,12 @@ pub fn drive_dec<T: Reg + Encode + Decode>(ctx: &mut Ctx, mem_tracking: bool) {
 				runs.push(run_json::<T>("unk", &[], &inp, 0));
 				#[cfg(feature = "bytes")]
 				runs.push(run_json::<T>("bytes", &[], &inp, 0));
+				// the std::io adapter, fed whole and in pieces of one to three bytes
+				#[cfg(feature = "std")]
+				{
+					runs.push(run_json::<T>("io", &[], &inp, 0));
+					runs.push(run_json::<T>("short", &[], &inp, g.u64()));
+				}
 			},
 			"C08" => {
 				// every back-end bare, plus every wrapper stack on a rotating back-end
@@ -668,6 +674,16 @@ pub fn drive_dec<T: Reg + Encode + Decode>(ctx: &mut Ctx, mem_tracking: bool) {
 				for l in ls {
 					let l = if l > usize::MAX as u128 { usize::MAX } else { l as usize };
 					runs.push(run_json::<T>("rec", &[W::Mem(l)], &inp, 0));
+				}
+				// the same wrapper applied statically on a slice (generic hooks are reachable only this way)
+				for l in [1u128, u, u + 1] {
+					let l = if l > usize::MAX as u128 { usize::MAX } else { l as usize };
+					let mut s = &inp[..];
+					let mut mi = parity_scale_codec::MemTrackingInput::new(&mut s, l);
+					let r = guarded(|| T::decode(&mut mi));
+					let used = mi.used_mem();
+					let (res, v) = res_json(&r);
+					runs.push(json!({"be":"slice","st":[W::Mem(l).json()],"res":res,"v":v,"n":inp.len() - s.len(),"cnt":[],"used":[digits(used as u128, 8)]}));
 				}
 				runs.push(run_json::<T>("rec", &[W::Mem(usize::MAX)], &inp, 0));
 			},
@@ -1479,8 +1495,17 @@ pub mod hist {
 				// encode a borrowed sub-slice at an arbitrary bit offset as well
 				let a = g.below(d.len() + 1); let b = a + g.below(d.len() - a + 1);
 				// alternately as a borrowed slice and as a box made from it (both keep the head offset)
-				if ops.len() % 2 == 0 { sls.push(json!([a, b, enc2(&&d[a..b])])); }
-				else { sls.push(json!([a, b, enc2(&bitvec::boxed::BitBox::from_bitslice(&d[a..b]))])); }
+				match ops.len() % 3 {
+					0 => sls.push(json!([a, b, enc2(&&d[a..b])])),
+					1 => sls.push(json!([a, b, enc2(&bitvec::boxed::BitBox::from_bitslice(&d[a..b]))])),
+					// the whole vector turned into a box as it is (keeps whatever lies behind its end)
+					_ => {
+						// (no clone: a copy would be a freshly built value)
+						let bx = std::mem::take(&mut d).into_boxed_bitslice();
+						sls.push(json!([0, bx.len(), enc2(&bx)]));
+						d = bx.into_bitvec();
+					},
+				}
 			}
 			emit::<BitVec<T, O>>(ctx, ops, outs, sls);
 		}
@@ -1505,7 +1530,7 @@ pub fn drive_heap<T: Reg + Encode + Decode>(ctx: &mut Ctx) {
 	let zero = has_zero_elems(&T::descr()) || has_zero_elems(&env_of::<T>());
 	// zero-sized elements: the decoder loops once per claimed element (terminates, but slowly);
 	// elements with an empty encoding and a non-zero size are the known finding: cap at 2^22
-	let counts: Vec<u64> = if zero { vec![1 << 22, (1 << 16) + 1, 300] } else { vec![u32::MAX as u64, 1 << 31, 1 << 30, (1 << 24) + 1, 70000] };
+	let counts: Vec<u64> = if zero { vec![1 << 22, (1 << 16) + 1, 300] } else { vec![u32::MAX as u64, 1 << 31, 1 << 30, (1 << 24) + 1, 70000, 16384, 16383, 5000] };
 	let mut valid: Vec<Vec<u8>> = vec![];
 	for _ in 0..(if ctx.tier == "thorough" { 4 } else { 2 }) {
 		let v = T::gen(&mut g);
